@@ -49,6 +49,43 @@ pub struct Advert {
     pub keys: Vec<(Fingerprint, DerivationPath)>,
     pub hashes: Vec<usize>,
     pub hostile: bool,
+    pub caps: Caps,
+}
+
+/// What kinds of signature a signer is able (and willing) to produce; advertised to the coordinator
+/// and honoured by the signer itself.
+#[derive(Clone, Debug, PartialEq, Eq)]
+pub struct Caps {
+    pub ecdsa: bool,
+    pub key_spend: bool,
+    /// None = any leaf; Some(list) = only these (empty list = none)
+    pub leaves: Option<Vec<bitcoin::taproot::TapLeafHash>>,
+}
+
+impl Caps {
+    pub fn all() -> Caps { Caps { ecdsa: true, key_spend: true, leaves: None } }
+    pub fn can_sign(&self) -> CanSign {
+        CanSign {
+            ecdsa: self.ecdsa,
+            taproot: TaprootCanSign {
+                key_spend: self.key_spend,
+                script_spend: match &self.leaves {
+                    None => TaprootAvailableLeaves::Any,
+                    Some(v) if v.is_empty() => TaprootAvailableLeaves::None,
+                    Some(v) if v.len() == 1 => TaprootAvailableLeaves::Single(v[0]),
+                    Some(v) => TaprootAvailableLeaves::Many(v.clone()),
+                },
+                sighash_default: true,
+            },
+        }
+    }
+    pub fn allows(&self, slot: wallet::Slot) -> bool {
+        match slot {
+            wallet::Slot::Ecdsa => self.ecdsa,
+            wallet::Slot::TapKey => self.key_spend,
+            wallet::Slot::TapLeaf(l) => self.leaves.as_ref().map(|v| v.contains(&l)).unwrap_or(true),
+        }
+    }
 }
 
 #[derive(Clone, Debug)]
@@ -116,6 +153,7 @@ impl RunStats {
 }
 
 pub struct SignerState {
+    pub caps: Caps,
     pub up: bool,
     pub partitioned: bool,
     pub policy: SignerPolicy,
@@ -225,7 +263,37 @@ impl<'a> World<'a> {
         let run_seed = env.run_seed;
         let chain = Chain::new(sc.start_height, sc.start_time, 30);
         let dec = Decider::new(run_seed, sc);
-        let signers = (0..sc.knobs.n_signers).map(|_| SignerState { up: true, partitioned: false, policy: SignerPolicy::default(), sent: 0 }).collect();
+        let mut dec = dec;
+        // all tap leaves of the run, for leaf-restricted signers
+        let mut all_leaves: Vec<bitcoin::taproot::TapLeafHash> = vec![];
+        for ic in &env.inputs {
+            if let miniscript::Descriptor::Tr(tr) = &ic.desc {
+                for l in tr.leaves() {
+                    all_leaves.push(bitcoin::taproot::TapLeafHash::from_byte_array(crate::vm::tapleaf_hash(0xc0, l.miniscript().encode().as_bytes())));
+                }
+            }
+        }
+        let signers = (0..sc.knobs.n_signers)
+            .map(|s| {
+                let c = dec.choose(&format!("caps:s{}", s), 12);
+                let caps = match c {
+                    1 => Caps { ecdsa: false, ..Caps::all() },
+                    2 => Caps { key_spend: false, ..Caps::all() },
+                    3 => Caps { leaves: Some(vec![]), ..Caps::all() },
+                    4 | 5 if !all_leaves.is_empty() => {
+                        let k = dec.choose(&format!("capleaf:s{}", s), all_leaves.len() as u64) as usize;
+                        let mut v = vec![all_leaves[k]];
+                        if c == 5 {
+                            v.push(all_leaves[(k + 1) % all_leaves.len()]);
+                            v.dedup();
+                        }
+                        Caps { leaves: Some(v), ..Caps::all() }
+                    }
+                    _ => Caps::all(),
+                };
+                SignerState { caps, up: true, partitioned: false, policy: SignerPolicy::default(), sent: 0 }
+            })
+            .collect();
         let replicas = (0..sc.knobs.n_replicas).map(|_| ReplicaState { psbt: None, epoch: 0 }).collect();
         let n_inputs = env.inputs.len();
         let coord = CoordState {
@@ -395,7 +463,6 @@ impl<'a> World<'a> {
         for s in 0..self.signers.len() {
             self.signers[s].up = true;
             self.signers[s].partitioned = false;
-            self.signers[s].policy = SignerPolicy::default();
         }
         if !self.coord.up {
             self.restart_coord();
@@ -498,7 +565,7 @@ impl<'a> World<'a> {
     fn make_honest_advert(&self, s: usize) -> Advert {
         let keys = self.env.uni.keys.iter().filter(|k| k.owner == s).map(|k| k.origin.clone()).collect();
         let hashes = self.env.uni.hashes.iter().filter(|h| h.owner == s).map(|h| h.id).collect();
-        Advert { signer: s, keys, hashes, hostile: false }
+        Advert { signer: s, keys, hashes, hostile: false, caps: self.signers[s].caps.clone() }
     }
 
     fn make_advert(&mut self, s: usize) -> Advert {
@@ -574,6 +641,9 @@ impl<'a> World<'a> {
         // partial signing policy
         let pp = self.dec.fault(Fault::SignerPartial, &format!("s{}#{}", s, n), 20, 100, 5);
         let mut policy = SignerPolicy::default();
+        policy.sign_ecdsa = self.signers[s].caps.ecdsa;
+        policy.sign_key_spend = self.signers[s].caps.key_spend;
+        policy.leaf_allow = self.signers[s].caps.leaves.clone();
         match pp {
             1 => policy.sign_key_spend = false,
             2 => policy.sign_leaves = false,
@@ -743,7 +813,7 @@ impl<'a> World<'a> {
         let mut assets = Assets::new();
         for a in self.coord.adverts.values() {
             for (fp, path) in &a.keys {
-                assets.keys.insert(((*fp, path.clone()), CanSign { ecdsa: true, taproot: TaprootCanSign { key_spend: true, script_spend: TaprootAvailableLeaves::Any, sighash_default: true } }));
+                assets.keys.insert(((*fp, path.clone()), a.caps.can_sign()));
             }
             for h in &a.hashes {
                 let hi = &self.env.uni.hashes[*h];
